@@ -400,6 +400,18 @@ pub fn onion_payload(
     metadata: Option<&[u8]>,
     unknown_record: bool,
 ) -> Vec<u8> {
+    onion_payload_ext(forward, cltv, total, metadata, if unknown_record { 1 } else { 0 })
+}
+
+/// `extra_after`: number of unknown odd records after the metadata record
+/// (bit 2 set: the first of them is 300 bytes long, needing a 3-byte length).
+pub fn onion_payload_ext(
+    forward: u64,
+    cltv: u32,
+    total: u64,
+    metadata: Option<&[u8]>,
+    extra_after: u8,
+) -> Vec<u8> {
     let mut recs: Vec<(u64, Vec<u8>)> = Vec::new();
     recs.push((2, tu64_min(forward)));
     recs.push((4, tu64_min(cltv as u64)));
@@ -409,8 +421,10 @@ pub fn onion_payload(
     if let Some(m) = metadata {
         recs.push((16, m.to_vec()));
     }
-    if unknown_record {
-        recs.push((65537, vec![1, 2, 3]));
+    let n = extra_after & 3;
+    for i in 0..n {
+        let len = if i == 0 && extra_after & 4 != 0 { 300 } else { 1 + i as usize * 2 };
+        recs.push((65537 + 2 * i as u64, (0..len).map(|k| (k as u8).wrapping_mul(7).wrapping_add(i)).collect()));
     }
     with_length_prefix(&encode_tlv(&recs))
 }
@@ -506,7 +520,7 @@ pub fn malformed_metadata(rng: &mut Rng, invoice: &[u8]) -> (Vec<u8>, &'static s
 
 /// Unusable-but-well-formed metadata.
 pub fn unusable_metadata(rng: &mut Rng, pool: &Pool, hash_ix: usize) -> (Vec<u8>, &'static str) {
-    match rng.below(8) {
+    match rng.below(10) {
         0 => (encode_tlv(&[(33003, tu64_min(5))]), "meta:amount-only"),
         1 => (
             encode_tlv(&[(33001, vec![0xff, 0xfe, 0xfd])]),
@@ -548,6 +562,16 @@ pub fn unusable_metadata(rng: &mut Rng, pool: &Pool, hash_ix: usize) -> (Vec<u8>
             ),
             "meta:amountless-amount-9-bytes",
         ),
+        8 => {
+            let inner = encode_tlv(&[(33001, vec![0x41, 0x42])]);
+            (with_length_prefix(&inner), "meta:length-prefixed-invoice")
+        }
+        7 => {
+            // Reaches the payload-rewrite branch: read with a length prefix it
+            // is a stream containing record 33003.
+            let inner = encode_tlv(&[(33003, tu64_min(7)), (33005, vec![9])]);
+            (with_length_prefix(&inner), "meta:length-prefixed-amount")
+        }
         _ => (encode_tlv(&[(33005, vec![1, 2, 3])]), "meta:unknown-only"),
     }
 }
@@ -678,7 +702,7 @@ pub fn gen_set(content_seed: u64, set_ix: u32, cfg: &RunCfg, force_hash: Option<
     if r.permille(cfg.f_malformed) {
         let inv = pool.inv(hash_ix, InvKind::Fixed);
         let (meta, tag) = malformed_metadata(r, inv.bolt11.as_bytes());
-        let payload = onion_payload(1000, 500, 1000, Some(&meta), r.chance(1, 4));
+        let payload = onion_payload_ext(1000, 500, 1000, Some(&meta), r.below(8) as u8);
         return SetSpec {
             set_ix,
             hash_ix,
@@ -896,7 +920,7 @@ fn gen_nontrampoline(r: &mut Rng, _cfg: &RunCfg, set_ix: u32, hash_ix: usize) ->
             ),
             1 => (
                 // forward that (strangely) carries good trampoline metadata
-                onion_payload(1000, 500, 1000, Some(&good_meta), true),
+                onion_payload_ext(1000, 500, 1000, Some(&good_meta), r.below(8) as u8),
                 Some("103x1x0".to_string()),
                 Some(1000),
                 "forward-with-metadata",
@@ -910,7 +934,7 @@ fn gen_nontrampoline(r: &mut Rng, _cfg: &RunCfg, set_ix: u32, hash_ix: usize) ->
             3 => {
                 let (m, tag) = unusable_metadata(r, pool, hash_ix);
                 (
-                    onion_payload(1000, 500, 1000, Some(&m), r.chance(1, 3)),
+                    onion_payload_ext(1000, 500, 1000, Some(&m), r.below(8) as u8),
                     None,
                     Some(1000),
                     tag,
